@@ -6,6 +6,10 @@ from ..report import Report
 from . import comptrace
 
 
+def rng_bits(k):
+    return [60, 300, 900][k % 3]
+
+
 def main(tier, replay=None):
     rep = Report("C11", tier)
     seed = common.seed()
@@ -50,6 +54,33 @@ def main(tier, replay=None):
             tr, proto, _ = comptrace.make_trace("c11-urand-%d-%d" % (seed, k), pr, d, want=("msgs", "refs", "lines"))
             traces.append(tr)
             progs.append(pr)
+        # "the resolved definition is the one whose width, members and encoding the field gets", seen from the
+        # generated C: programs whose imported file carries its own c.name_prefix (so that a definition's C name
+        # says which file it came from) are built and run; TLC decides the bytes against the intended type
+        from .. import cdrive as _cdrive
+        from . import cwire as _cwire, pywire as _pywire
+        worker = _cdrive.Worker()
+        try:
+            builder = _cdrive.CBuilder(scratch, cflags=("-O1",))
+            ccases = []
+            for k in range(24 if tier == "quick" else 300):
+                pr, rng = gen.rand_case(seed, 115000 + k, max_bits=rng_bits(k), p_ext=0.0 if k % 2 else 0.3)
+                libs = [f for f in pr["order"] if f != pr["main"]]
+                if not libs:
+                    continue
+                lf = pr["files"][libs[0]]
+                pi = [i for i, x in enumerate(lf) if x["d"] == "proto"][0]
+                lf.insert(pi + 1, {"d": "option", "name": "c.name_prefix", "v": {"e": "str", "src": "Lib", "val": "Lib"}})
+                t = pr["rtype"]
+                ccases.append(_cwire.CCase("c11-c-%d-%d" % (seed, k), pr,
+                                           [gen.gen_value(rng, t, "ones"), gen.gen_value(rng, t, "rand")]))
+            for c, lib in _cwire.prepare(ccases, scratch, builder, optimize=False):
+                if lib is not None:
+                    _cwire.drive_case(c, lib, worker, want=("enc", "dec"))
+                rep.feature("c-encoding-with-prefixed-import")
+            _pywire.validate_and_decide(rep, ccases, count_events=("CEncode", "CDecode"))
+        finally:
+            worker.close()
         verdicts = []
         B = 4000
         for i in range(0, len(traces), B):
